@@ -2,7 +2,7 @@
 CHECK = {
     "pkg": ".", "files": ["root/fwref_test.go", "root/c22_test.go"], "run": "^TestC22",
     "quick": {"scale": 1, "shards": 1, "timeout": 600},
-    "thorough": {"scale": 15, "shards": 8, "timeout": 1800},
+    "thorough": {"scale": 10, "shards": 8, "timeout": 1800},
     "rule": "rapid draws of firewall.inbound/outbound values as YAML delivers them (absent, null, non-list, list of 0-4 rule "
             "maps or non-maps); rule maps with proto (known, wrong case, unknown, int, nil, missing), port/code text from a list of "
             "valid and hostile constants plus a grammar (blanks, signs, 0x, leading zeros, 65535/65536/99999/2^32, 1-3 dash-separated "
